@@ -84,6 +84,11 @@ def main():
                         shutil.copy(rp, os.path.join(d, "replay_%s.json" % c))
     finally:
         sh("git -C /repo worktree remove --force %s" % wt)
+        # per-seed work directories (VERIF_WORKTAG) are only needed while the check runs
+        import glob
+        for d in glob.glob(os.path.join(V, "work", "*-" + name)) + glob.glob(os.path.join(V, "harness", "work", "*-" + name)) \
+                + glob.glob(os.path.join(V, "harness", "work", "*" + "-" + name)):
+            shutil.rmtree(d, ignore_errors=True)
     d = os.path.join(V, "seeded", name)
     os.makedirs(d, exist_ok=True)
     shutil.copy(patch, os.path.join(d, "patch.diff"))
